@@ -134,7 +134,7 @@ Definition read_listing (legacy : bool) (m : N) (s : text) : option (list instr 
   else None.
 
 (* ---------- the canonical load-file layout without layout variations ----------
-   one fully explicit instruction per line, single blanks, LF line ends, the entry-point
+   one fully explicit instruction per line (OP.MOD M A, M B), single blanks, LF line ends, the entry-point
    directive first ('94: ORG) or last ('88: END); fields printed unsigned, or signed when
    they lie in the upper half (sg) *)
 Definition canon_field (sg : bool) (m a : N) : text :=
@@ -142,8 +142,8 @@ Definition canon_field (sg : bool) (m a : N) : text :=
 Definition canon_op (legacy : bool) (i : instr) : text :=
   opcode_name (i_op i) ++ (if legacy then [] else 46 :: opmode_name (i_md i)).
 Definition canon_line (legacy sg : bool) (m : N) (i : instr) : text :=
-  canon_op legacy i ++ [32; amode_char (i_am i)] ++ canon_field sg m (i_a i)
-  ++ [44; 32; amode_char (i_bm i)] ++ canon_field sg m (i_b i) ++ [10].
+  canon_op legacy i ++ [32; amode_char (i_am i); 32] ++ canon_field sg m (i_a i)
+  ++ [44; 32; amode_char (i_bm i); 32] ++ canon_field sg m (i_b i) ++ [10].
 Definition canon_dir (kw : text) (start : Z) : text := kw ++ [32] ++ dec_of_N (Z.to_N start) ++ [10].
 Definition canon_print (legacy sg : bool) (m : N) (code : list instr) (start : Z) : text :=
   if legacy then flat_map (canon_line legacy sg m) code ++ canon_dir (s2t "END") start
